@@ -22,6 +22,7 @@ func TestMain(m *testing.M) {
 	vh.Rule("also: Info.DebugLogPackages is on in a quarter of the cases (every package is printed while it is sent / received)")
 	vh.QuietLog()
 	vh.Rule("also: a package whose encoding fails half-way (some bytes produced, then an error), followed by Reset: nothing of it reaches the transport and the next message is exact")
+	vh.Rule("also: in the middle of a message a package that cannot be serialised at all, or only for its first n bytes (n up to several packet bodies): the call reports the error, the message goes on; packets framed correctly, the other packages complete and in order (the n bytes may stay or be taken back); the ENVCHANGE announcing the packet size carries other members before / after PACKSIZE; a message whose caller gives up at the first error without flushing leaves nothing behind")
 	vh.Main(m, "C01")
 }
 
